@@ -84,6 +84,15 @@ struct Registrar {
   }
 };
 
+// non-fiber commands ("vrt <command> ..."), e.g. the sequential program interpreters
+using CommandFn = int (*)(int argc, char** argv);
+void RegisterCommand(const char* name, CommandFn fn);
+struct CommandRegistrar {
+  CommandRegistrar(const char* name, CommandFn fn) {
+    RegisterCommand(name, fn);
+  }
+};
+
 // ---------------------------------------------------------------- allocation accounting (C03 / C20)
 
 struct AllocStats {
